@@ -5,6 +5,7 @@ import (
 	"go/constant"
 	"go/token"
 	"go/types"
+	"strings"
 
 	"golang.org/x/tools/go/ssa"
 
@@ -698,7 +699,11 @@ func checkC09(p *core.Program, r *core.Report) {
 	if npin == 0 {
 		r.OK(R4, "SetShipID is never called by the library", "", "only the application pins a SHIP ID")
 	}
-
+	const R6 = "C09.R6 pin-record-found-under-any-spelling"
+	r.Rule(R6, "ServiceForSKI - the accessor the application pins the SHIP ID through - reaches the registry only with the normalised SKI (shared with C15.R1): otherwise the pin lands on a second record keyed by the label spelling while connections consult the canonical record, whose id is empty, and any presented id is accepted")
+	importRules(p, r, "C15", map[string]string{"C15.R1 normalise-before-use": R6}, func(key string) bool {
+		return strings.Contains(key, "remoteServices") || !strings.Contains(key, " -> ")
+	})
 }
 
 // storedService: v is (on every path / from every caller) the result of (*Hub).ServiceForSKI.
